@@ -49,6 +49,15 @@ Obliged(c, p) == ~\E x \in Exempt(c.entry, c.opt) : IsPrefixOf(x, p)
 ASSUME \A r \in ExemptTable : \A p \in r.under : Len(p) >= 2 /\ p[1] \in {"args", "kwargs"}
 ASSUME \A r, s \in ExemptTable : (r.entry = s.entry /\ r.opt = s.opt) => r = s
 
+(* ---- domain dimension: the forms in which a caller may spell mode numbers and per-mode options ---- *)
+(* ("option lists such as fixed modes or per-mode coefficients" are caller-owned inputs).  Every        *)
+(* operation that accepts a mode / a collection of modes / an option keyed by mode is exercised with     *)
+(* these forms; the trace spec rejects an undeclared form and, on a full run, a form never exercised.    *)
+ArgForms == { "mode:int", "mode:neg", "mode:npint",                       \* one mode: 1, -2, numpy.int64(1)
+              "modes:list", "modes:tuple", "modes:neg_list", "modes:neg_tuple",
+              "modes:np_list", "modes:ndarray", "modes:set",              \* collections of modes
+              "dict:pos_keys", "dict:neg_keys", "dict:npint_keys" }       \* options keyed by mode number
+
 (* ---- the contract as state functions (used by the model below and by OwnershipTrace) ----------- *)
 \* slots whose digest differs although the call was obliged to preserve them
 \* (the memory a view argument is a window on -- path component "base" -- belongs to the view object
